@@ -37,6 +37,33 @@ def gen(rng, tier):
             nr = max(nr, rng.choice([1, 5, 40, 70]))
             w = min(nr, rng.choice([1, 2, 3, 4, 5, nr, max(1, nr - 1), rng.randint(1, nr), 34, 40, 33]))
             yield {'k': kind, 'x': [vals() for _ in range(nr)], 'w': w, 'which': rng.choice(['filtering', 'utils'])}
+    for _ in range(G.budget(60) if tier == 'quick' else 1500):
+        # narrow kernels (radius 0 / 1 / 2 around sigma = 0.125, 0.375, 0.625) and typed integer / boolean series
+        kind = rng.choice(['gauss1', 'gauss2', 'rmean', 'rmean'])
+        dtype = rng.choice(['bool', 'int8', 'int8', 'uint8', 'int16', 'float32', 'list', 'int64'])
+        nr = rng.choice([2, 3, 7, 30, 90])
+        nc = rng.randint(1, 4)
+
+        def val():
+            if dtype == 'bool':
+                return int(rng.random() < 0.6)
+            if dtype == 'int8':
+                return rng.choice([rng.randint(-128, 127), rng.randint(90, 127), rng.randint(-128, -100)])
+            if dtype == 'uint8':
+                return rng.randint(0, 255)
+            if dtype == 'int16':
+                return rng.choice([rng.randint(-32768, 32767), rng.randint(30000, 32767)])
+            if dtype == 'float32':
+                return rng.randint(-2000, 2000) / 16.0
+            return rng.randint(-50, 50)
+        sigma = rng.choice([0.05, 0.12, 0.125, 0.126, 0.13, 0.15, 0.19, 0.2, 0.22, 0.2499, 0.25, 0.26, 0.3, 0.374, 0.375, 0.4,
+                            0.62, 0.625, 0.63, 0.9, round(rng.uniform(0.05, 0.7), 4)])
+        if kind == 'gauss1':
+            yield {'k': kind, 'x': [val() for _ in range(nr)], 'sigma': sigma, 'dtype': dtype}
+        elif kind == 'gauss2':
+            yield {'k': kind, 'x': [[val() for _ in range(nc)] for _ in range(nr)], 'sigma': sigma, 'dtype': dtype}
+        else:
+            yield {'k': kind, 'x': [val() for _ in range(nr)], 'w': rng.randint(1, min(nr, 40)), 'which': rng.choice(['filtering', 'utils']), 'dtype': dtype}
     for _ in range(3):
         yield {'k': 'gauss3d', 'x': [[[1.0, 2.0], [3.0, 4.0]], [[5.0, 6.0], [7.0, 8.0]]], 'sigma': 1.0}
         yield {'k': 'rmean2d', 'x': [[1.0, 2.0], [3.0, 4.0]], 'w': 1, 'which': 'filtering'}
@@ -52,14 +79,19 @@ def impl(case):
     import numpy as np
     import msmhelper as mh
     from implutil import canon
-    x = np.array(case['x'], dtype=float)
-    before = x.copy()
+    dt = case.get('dtype')
+    if dt == 'list':
+        x = [list(r) if isinstance(r, list) else r for r in case['x']]
+        before = [list(r) if isinstance(r, list) else r for r in x]
+    else:
+        x = np.array(case['x'], dtype={None: float, 'bool': bool, 'float32': np.float32}.get(dt, dt))
+        before = x.copy()
     if case['k'].startswith('gauss'):
         r = mh.utils.filtering.gaussian_filter(x, case['sigma'])
     else:
         f = mh.utils.filtering.runningmean if case['which'] == 'filtering' else mh.utils.runningmean
         r = f(x, case['w'])
-    return {'ok': canon(np.asarray(r)), 'intact': bool(np.array_equal(before, x))}
+    return {'ok': canon(np.asarray(r)), 'intact': bool(np.array_equal(before, x)) and (dt == 'list' or x.dtype == before.dtype)}
 
 
 def requests(case):
